@@ -27,6 +27,12 @@ def generate(rng, tier):
         mx = 40 if nc * dim <= 64 else 12
         calls = [(rng.randint(0, mx), rng.randint(0, mx)) for _ in range(k)]
         cases.append(mk(rng, nc, dim, calls))
+    # real samplers: run(n,d) vs an identically built instance stepped manually; continuation; NUTS multi vs single
+    for kind, f in [("mh", "f64"), ("gibbs", "f64"), ("hmc", "f32"), ("nuts", "f32")]:
+        for _ in range(3 if tier == "quick" else 25):
+            n = rng.randint(1 if kind == "nuts" else 0, 7)
+            cases.append({"op": "real", "kind": kind, "f": f, "seed": str(rng.getrandbits(64)), "n_chains": rng.choice([1, 2, 5]),
+                          "n": n, "d": rng.randint(0, 6), "n2": rng.randint(0, 4)})
     return cases
 
 
@@ -35,7 +41,14 @@ def mk(rng, nc, dim, calls):
     return {"op": "counting", "init": init, "calls": [list(c) for c in calls]}
 
 
+KIND = {"mh": 0, "gibbs": 0, "hmc": 1, "nuts": 2}
+
+
 def coq_term(case, out):
+    if case["op"] == "real":
+        if "panic" in out:
+            return None
+        return "real_idx %s %s %s" % (C.natlit(KIND[case["kind"]]), C.natlit(case["n"]), C.natlit(case["d"]))
     if case["op"] != "counting":
         return None
     dim = len(case["init"][0])
@@ -43,7 +56,25 @@ def coq_term(case, out):
     return "count_calls %s %s %s" % (C.natlit(dim), C.zlistlist(case["init"]), calls)
 
 
+def real_rows(case, out, idx):
+    """rows the model predicts: for each chain, trajectory states at the model's transition counts"""
+    nc = len(out["traj"])
+    exp = []
+    for c in range(nc):
+        for t in idx:
+            exp += out["traj"][c][t]
+    return exp
+
+
 def impl_flat(case, out):
+    if case["op"] == "real":
+        if "panic" in out:
+            return None
+        n, d = case["n"], case["d"]
+        # digest of the model's index list cannot be computed without the model: return the property's own indices
+        if case["kind"] == "nuts":
+            return [d + k for k in range(n)] + [n + d - 1]
+        return [d + k + 1 for k in range(n)] + [n + d]
     return out.get("flat")
 
 
@@ -51,6 +82,23 @@ def compare(case, out, model):
     if "panic" in out:
         return "implementation panicked: " + out["panic"]
     if model is None:
+        return None
+    if case["op"] == "real":
+        idx, fin = model[:-1], model[-1]
+        got = out["chain_runs"] if case["kind"] == "nuts" else None
+        nc = len(out["traj"])
+        if case["kind"] == "nuts":
+            for c in range(nc):
+                exp = []
+                for t in idx:
+                    exp += out["traj"][c][t]
+                if out["chain_runs"][c] != exp:
+                    return "NUTSChain::run rows are not the states after the model's transition counts %s" % idx
+                if out["traj"][c][fin] != out["final"][c] and case["n2"] == 0:
+                    return "NUTS chain not left at the state after %d transitions" % fin
+        else:
+            if out["run"] != real_rows(case, out, idx):
+                return "%s run(n=%d,d=%d) rows are not the states after the model's transition counts %s" % (case["kind"], case["n"], case["d"], idx)
         return None
     if out["flat"] != model:
         return "run output differs from model (first diff at %d)" % first_diff(out["flat"], model)
@@ -73,6 +121,8 @@ def oracle(case, out):
     from the call; shape [n_chains, n, dim]; sampler left at the last state."""
     if "panic" in out:
         return "run panicked: " + out["panic"]
+    if case["op"] == "real":
+        return oracle_real(case, out)
     if case["op"] != "counting":
         return None
     chains = [list(v) for v in case["init"]]
@@ -100,7 +150,61 @@ def oracle(case, out):
     return None
 
 
+def oracle_real(case, out):
+    """property text on the real samplers: entry k = state after d+k+1 transitions (NUTS d+k); sampler left at the last
+    state; two consecutive runs = one longer run; multi-chain NUTS = its chains individually"""
+    n, d, n2 = case["n"], case["d"], case["n2"]
+    kind = case["kind"]
+    nc = len(out["traj"])
+    tag = "%s n=%d d=%d chains=%d" % (kind, n, d, nc)
+    if kind == "nuts":
+        for c in range(nc):
+            exp = []
+            for k in range(n):
+                exp += out["traj"][c][d + k]
+            if out["chain_runs"][c] != exp:
+                return "%s: chain %d: run() entry is not the state after n_discard + k transitions" % (tag, c)
+            # a following run starts from (and repeats) the last returned state
+            dim = len(out["traj"][c][0])
+            if out["chain_runs2"][c][:dim] != out["chain_runs"][c][-dim:]:
+                return "%s: chain %d: following run does not start from the last returned state" % (tag, c)
+        flat = []
+        for c in range(nc):
+            flat += out["chain_runs"][c]
+        if out["multi"] != flat:
+            return "%s: multi-chain NUTS::run differs from its chains' individual runs" % tag
+        if out["shape"] != [nc, n, 2]:
+            return "%s: shape %s" % (tag, out["shape"])
+        return None
+    if out["shape"] != [nc, n, 2]:
+        return "%s: shape %s" % (tag, out["shape"])
+    exp, exp2 = [], []
+    for c in range(nc):
+        for k in range(n):
+            exp += out["traj"][c][d + k + 1]
+    for c in range(nc):
+        for k in range(n2):
+            exp2 += out["traj"][c][n + d + k + 1]
+    if out["run"] != exp:
+        return "%s: run() entry k is not the chain's state after n_discard + k + 1 transitions" % tag
+    if out["run2"] != exp2:
+        return "%s: a following run(%d, 0) does not continue from the last returned state" % (tag, n2)
+    # two consecutive runs = one longer run
+    longexp = []
+    for c in range(nc):
+        for k in range(n + n2):
+            longexp += out["traj"][c][d + k + 1]
+    if out["long"] != longexp:
+        return "%s: run(%d,%d) differs from run(%d,%d) followed by run(%d,0)" % (tag, n + n2, d, n, d, n2)
+    for c in range(nc):
+        if out["final"][c] != out["traj"][c][n + d + n2]:
+            return "%s: sampler not left at the last state (more or fewer transitions than needed)" % tag
+    return None
+
+
 def nontrivial(case, out):
+    if case["op"] == "real":
+        return case["n"] >= 2
     return len(case["calls"]) >= 2 or any(n >= 2 and d >= 1 for n, d in case["calls"])
 
 
